@@ -46,6 +46,18 @@
 static void reb_tree_get_nearest_neighbour_in_cell(struct reb_simulation* const r, int* collisions_N, struct reb_vec6d gb, struct reb_vec6d gbunmod, int ri, double p1_r,  double* nearest_r2, struct reb_collision* collision_nearest, struct reb_treecell* c);
 static void reb_tree_check_for_overlapping_trajectories_in_cell(struct reb_simulation* const r, int* collisions_N, struct reb_vec6d gb, struct reb_vec6d gbunmod, int ri, double p1_r, double p1_r_plus_dtv, struct reb_collision* collision_nearest, struct reb_treecell* c, double maxdrift);
 
+// Verification hook helper (no-op unless REBOUND_VERIF=1): pending collisions after index i and the particle identities.
+static void reb_verif_dump_collision_state(struct reb_simulation* const r, const char* tag, int i, int collisions_N){
+    if (reb_verif_state==0) return;
+    REB_VERIF(r, tag, 3, (double)i, (double)collisions_N, (double)r->N);
+    for (int j=i+1;j<collisions_N;j++){
+        REB_VERIF(r, "col_pend", 3, (double)j, (double)r->collisions[j].p1, (double)r->collisions[j].p2);
+    }
+    for (unsigned int k=0;k<r->N;k++){
+        REB_VERIF(r, "col_part", 3, (double)k, (double)r->particles[k].hash, r->particles[k].y);
+    }
+}
+
 void reb_collision_search(struct reb_simulation* const r){
     int N = r->N - r->N_var;
     int Ninner = N;
@@ -382,6 +394,8 @@ void reb_collision_search(struct reb_simulation* const r){
     if (r->integrator == REB_INTEGRATOR_MERCURIUS || r->integrator == REB_INTEGRATOR_TRACE){
         collision_resolve_keep_sorted = 1; // Force keep_sorted for hybrid integrator
     }
+    REB_VERIF(r, "col_search", 3, (double)collisions_N, (double)collision_resolve_keep_sorted, (double)(r->tree_root!=NULL));
+    reb_verif_dump_collision_state(r, "col_found", -1, collisions_N);
 
     for (int i=0;i<collisions_N;i++){
         
@@ -389,6 +403,7 @@ void reb_collision_search(struct reb_simulation* const r){
         if (c.p1 != -1 && c.p2 != -1){
             // Resolve collision
             int outcome = resolve(r, c);
+            REB_VERIF(r, "col_call", 4, (double)i, (double)c.p1, (double)c.p2, (double)outcome);
             
             // Remove particles
             if (outcome & 1){
@@ -483,6 +498,7 @@ void reb_collision_search(struct reb_simulation* const r){
                     }
                 }
             }
+            reb_verif_dump_collision_state(r, "col_after", i, collisions_N);
         }
     }
 }
